@@ -1,5 +1,6 @@
 import NettyVerif.Proofs.Frame
 import NettyVerif.Proofs.VarLen
+import NettyVerif.Proofs.Guards
 /-! # C08 — Frame decoders never deliver a truncated, oversized or phantom frame
 
 Property theorems only, over the same executable codec model as C04 (Model/Frame.lean), for
@@ -93,6 +94,68 @@ theorem C08_variable_length_progress (max : Nat) (hmax : 0 < max) (cs : List Var
 
 example : VarLen.run 3 10 [[1, 2, 3, 4, 5], [6]] = [[1, 2, 3], [4, 5], [6]] := by decide
 
+/-! ### The decoders' guards as the code states them (T3: `Gen/Guards.lean`, regenerated on every run) -/
+section Guards
+open NettyVerif.Guards
+
+/-- lengthFieldCodec.HandleRead, from the header read to its last guard: the extracted statements
+    are the expected ones, and executed under Go's 64-bit semantics on a completely read header they
+    raise exactly when `lfFrameLength` (the guards of the model's `decodeLF`) refuses, and compute the
+    same adjusted frame length — for every valid configuration and every value of the length field;
+    `decodeLF` is exactly: read the header, apply `lfFrameLength`, strip. -/
+theorem C08_guards_lf_read :
+    guardsOf Gen.Guards.lengthFieldCodec_HandleRead = guardsOf expLFReadGuards ++ guardsOf expLFReadRest ∧
+    (∀ (c : LFCfg) (env : Env), LFEnv c env → c.valid = true → I64 c.max → I64 c.strip →
+      (env.var "n" = env.len "headerBuffer" ∧ env.var "nil" = env.var "err") →
+      ∀ fl0 : Int, env.opq unpackCall = fl0 →
+      (run (guardsOf expLFReadGuards) env).map (fun e => e.var "frameLength") = lfFrameLength c fl0) ∧
+    (∀ (c : LFCfg) (cs : List Bytes) (fin : RErr) (hdr : Bytes) (rest : List Bytes),
+      readFull cs fin (c.offset + c.fieldLen).toNat = (.ok hdr, rest) →
+      lfFrameLength c (wrap64 ((unpack c.big (hdr.drop c.offset.toNat) : Nat) : Int)) = none →
+      decodeLF c cs fin = .raise rest) := by
+  refine ⟨rfl, ?_, ?_⟩
+  · intro c env he hv hm hs hio fl0 hfl
+    rw [← run_guardsOf]
+    exact expLFReadGuards_sem c env he hv hm hs hio fl0 hfl
+  · intro c cs fin hdr rest hr hn
+    rw [decodeLF_guards, hr]
+    simp only [hn]
+
+/-- the varint decoder refuses exactly the declared lengths above the maximum (`decodeVarint`) -/
+theorem C08_guards_varint_read (max v : Int) (env : Env) (hm : 0 < max ∧ max < 2^63)
+    (h1 : env.var "maxFrameLength" = max) (h2 : env.var "frameLength" = v) (h3 : env.opq "err" = 0) :
+    (run Gen.Guards.varintLengthFieldCodec_HandleRead env).isSome = !decide (v > max) := by
+  rw [run_guardsOf, show guardsOf Gen.Guards.varintLengthFieldCodec_HandleRead = guardsOf expVarintHandleRead from rfl, ← run_guardsOf]
+  exact expVarintHandleRead_sem max v env hm h1 h2 h3
+
+/-- the constructors of the fixed-length, delimiter, varint and variable-length codecs accept
+    exactly what `Codec.valid` (and `VarLen`'s `0 < max`) require -/
+theorem C08_guards_constructors (v : Int) (d : Bytes) (s : Bool) (env : Env) :
+    (env.var "length" = v → (run Gen.Guards.FixedLengthCodec env).isSome = (Codec.fixed v).valid) ∧
+    (env.var "maxFrameLength" = v → (run Gen.Guards.VarintLengthFieldCodec env).isSome = (Codec.varint v).valid) ∧
+    (env.var "maxReadLength" = v → (run Gen.Guards.VariableLengthCodec env).isSome = decide (v > 0)) ∧
+    (env.var "maxFrameLength" = v → env.len "delimiter" = d.length →
+      (run Gen.Guards.DelimiterCodec env).isSome = (Codec.delim d v s).valid) := by
+  refine ⟨?_, ?_, ?_, ?_⟩
+  · intro h
+    rw [run_guardsOf, show guardsOf Gen.Guards.FixedLengthCodec = expPositive "length" from rfl]
+    simpa [Codec.valid] using expPositive_sem "length" v env h
+  · intro h
+    rw [run_guardsOf, show guardsOf Gen.Guards.VarintLengthFieldCodec = expPositive "maxFrameLength" from rfl]
+    simpa [Codec.valid] using expPositive_sem "maxFrameLength" v env h
+  · intro h
+    rw [run_guardsOf, show guardsOf Gen.Guards.VariableLengthCodec = expPositive "maxReadLength" from rfl]
+    exact expPositive_sem "maxReadLength" v env h
+  · intro h1 h2
+    rw [run_guardsOf, show guardsOf Gen.Guards.DelimiterCodec = expDelimiterCodec from rfl]
+    exact expDelimiterCodec_sem d v s env h1 h2
+
+-- the guards bite: a length field of 2000 against a maximum of 1024 is refused, 10 is accepted
+example : lfFrameLength { big := true, max := 1024, offset := 0, fieldLen := 2, adj := 0, strip := 0 } 2000 = none := by decide
+example : lfFrameLength { big := true, max := 1024, offset := 0, fieldLen := 2, adj := 0, strip := 0 } 10 = some 12 := by decide
+
+end Guards
+
 end NettyVerif.C08
 
 #print axioms NettyVerif.C08.C08_variable_length_bounded
@@ -105,3 +168,6 @@ end NettyVerif.C08
 #print axioms NettyVerif.C08.C08_pinned_truncated_frame
 #print axioms NettyVerif.C08.C08_pinned_endless_empty_messages
 #print axioms NettyVerif.C08.C08_pinned_varint_truncated
+#print axioms NettyVerif.C08.C08_guards_lf_read
+#print axioms NettyVerif.C08.C08_guards_varint_read
+#print axioms NettyVerif.C08.C08_guards_constructors
